@@ -6,8 +6,9 @@ Property C17 — Syntax and tracebacks show the source line for line under the r
 Everything below is about the executable model `RichModel.Syntax` (Model/Syntax.lean), for an ARBITRARY
 lexer `lex` that meets the contract "the token texts concatenate to Pygments' preprocessing of the code it
 was handed", an arbitrary cell-width function `cw`, and sources / widths / ranges of any size.
-The theorems are stated for the REPAIRED variant (`stripnl = false`, `skipRaises = false`); the `old_…`
-witnesses show that today's variant (`stripnl = true`, `skipRaises = true`) violates them.
+The theorems are stated for the REPAIRED variant (`stripnl = false`, `skipRaises = false`), which is what /repo
+contains now (`fix:` commits 92fb879, 1d638e8); the `old_…` witnesses show that the variant of rich 9.10.0 as found
+(`stripnl = true`, `skipRaises = true`) violates them.
 
 Vocabulary (Lemmas/Syntax*.lean):
   `splitNL s`            the source lines (`s.split("\n")`),
@@ -309,7 +310,7 @@ theorem old_stripnl_shifts_numbers :
       .ok [{ num := 1, marked := false, body := "x=1".toList }, { num := 2, marked := false, body := "y=2".toList }] := by
   decide
 
-/-- … so the full-strength statement fails for today's variant: no list of shown lines is the source lines up
+/-- … so the full-strength statement fails for the as-found variant: no list of shown lines is the source lines up
 to trailing blank lines. -/
 theorem old_stripnl_breaks_lines_are_source_lines :
     ¬ ∃ sel, Trail 2 sel (splitNL (expandTabs 4 demoCode)) ∧
